@@ -170,7 +170,7 @@ func evalArray1(src string, data map[string]interface{}) (interface{}, error, bo
 	var rerr error
 	panicked, pv := core.Call(func() { v, rerr = r.Resolve(context.Background(), sc.Expression) })
 	if !panicked && rerr == nil {
-		if e2 := secondEvaluation(sc, src, context.Background(), data, outcome(v, nil, false, nil)); e2 != nil {
+		if e2 := secondEvaluationOn(r, sc, src, context.Background(), data, outcome(v, nil, false, nil)); e2 != nil {
 			return nil, e2, false, nil
 		}
 	}
